@@ -100,9 +100,11 @@ contract(H + "send_event_time", ["C18", "C10"], model="R", params={"in_state": "
              "let(lambda u, leaf, t: old(same(t, cell_translate(self._cells, "
              "cell_of(self._cells, cell_anc(leaf, self._cell_level).value.position), sampled(walker_of(self, u), draw0, draw1)))), "
              "self._active_leaf_unit, self._leaf_cnodes[0], result[1][0])",
-             # the bound kept for the confirmation step is the one stored for that offset, direction and sign
+             # the bounding event RATE kept for the confirmation step (compared there with the true rate per unit time):
+             # the bound stored for that offset, direction and sign, times |charge factor|, times the SPEED - the rate at
+             # which this target cell is proposed (C04: acceptance = true rate / rate of proposal)
              "let(lambda u, r: old(r == get(self._derivative_bounds, sampled(walker_of(self, u), draw0, draw1))"
-             "[dir_of(u.velocity)][ite(q_of(self, u) > 0, 0, 1)] * abs(q_of(self, u))), "
+             "[dir_of(u.velocity)][ite(q_of(self, u) > 0, 0, 1)] * abs(q_of(self, u)) * u.velocity[dir_of(u.velocity)]), "
              "self._active_leaf_unit, self._bounding_event_rate)",
              "self._bounding_event_rate > 0",
              # events are proposed at rate beta * (total rate of the walker) * |charge factor| * speed
